@@ -29,8 +29,8 @@ func init() {
 				Rule: "case = one tree shape (beta in {0,250,600,900,1000,...}, built by a C01-style history or bulk New) with: Cursor(k) for EVERY key and for absent keys around every key; full forward (Min, Next...) and backward (Max, Prev...) sweeps with HasNext/HasPrev before each move; subtree checks at every node (everything through Left smaller, through Right larger, Cursor.Inorder == subtree keys ascending, early stop, the same cursor scanned again from inside its own scan (re-entrancy; cursors obtained by Cursor(k) and by moves from the root), Min/Max land on subtree extremes, Up after Left/Right returns); " +
 					"random walks (Next/Prev/Left/Right/Up/Min/Max/Clone, 200-2000 moves) of a population of up to 4 cursors with shadow positions, all cursors re-checked after every move; sparse-observation walks (only Valid/Key looked at after each move, the Has* predicates asked occasionally and not re-asked before the next move); cursors looked up, the tree cloned, the original modified, and the clone checked through every cursor operation; nil and invalidated cursors: every method a harmless no-op. " +
 					"distinct = hash of (shape as parent vector, walk seed); non-trivial = the shape has depth >= 4 and the walks included a Next/Prev that climbed >= 2 ancestors",
-				Required:     []string{"shapes", "next_climb_ge2", "prev_climb_ge2", "clone_moves", "invalid_cursor_probes", "absent_key_probes", "shapes_depth_ge10", "walk_moves", "empty_trees", "shapes_with_wide_comparator", "sparse_walk_moves", "clone_after_lookup_checks", "reentrant_scans", "cursors_reached_by_moves", "bulk_new_with_repeated_keys", "abandoned_scans"},
-				Assumptions:  []string{"set contents are taken from Tree.Inorder (property C01)", "the structure used as shadow model is itself read through the cursor API, and is accepted only if two independent readings agree and form a binary search tree over exactly the reference set"},
+				Required:     []string{"shapes", "next_climb_ge2", "prev_climb_ge2", "clone_moves", "invalid_cursor_probes", "absent_key_probes", "shapes_depth_ge10", "walk_moves", "empty_trees", "shapes_with_wide_comparator", "sparse_walk_moves", "clone_after_lookup_checks", "reentrant_scans", "cursors_reached_by_moves", "bulk_new_with_repeated_keys", "abandoned_scans", "scans_with_cursor_moved_inside"},
+				Assumptions:  []string{"Cursor.Inorder is read as listing the subtree where the cursor stood when Inorder was called, also if the loop body moves that cursor", "set contents are taken from Tree.Inorder (property C01)", "the structure used as shadow model is itself read through the cursor API, and is accepted only if two independent readings agree and form a binary search tree over exactly the reference set"},
 				CoverPkgs:    []string{"github.com/creachadair/mds/stree"},
 				CoverAnchors: []string{"stree/cursor.go", "stree/stree.go:Cursor", "stree/stree.go:Root", "stree/node.go:pathTo"},
 			}
@@ -289,6 +289,38 @@ func (k *c03case) perKey() {
 				})
 				if jj != hi+1 || !c.Valid() || c.Key() != k.ref[i] {
 					k.fail("Cursor(%d) after an abandoned Inorder (loop body panicked at call %d): valid=%v, a new scan lists %d of %d subtree keys", k.ref[i].Key, at+1, c.Valid(), jj-lo, hi-lo+1)
+					return
+				}
+			}
+			if i%5 == 3 && hi-lo <= 150 {
+				// the cursor is moved from inside its own scan (the tree is not
+				// changed): the scan keeps listing the subtree where the cursor
+				// stood when Inorder was called
+				mv := c.Clone()
+				jj, moves := lo, 0
+				okList := true
+				mv.Inorder(func(e Elem) bool {
+					if jj > hi || e != k.ref[jj] {
+						okList = false
+						return false
+					}
+					switch (jj + i) % 4 {
+					case 0:
+						mv.Up()
+					case 1:
+						mv.Min()
+					case 2:
+						mv.Next()
+					default:
+						mv.Left()
+					}
+					moves++
+					jj++
+					return true
+				})
+				k.c.Add("scans_with_cursor_moved_inside", 1)
+				if !okList || jj != hi+1 {
+					k.fail("Cursor(%d).Inorder while the same cursor is moved (Up/Min/Next/Left) in the loop body listed %d keys correctly of the %d in its subtree [%v..%v]", k.ref[i].Key, jj-lo, hi-lo+1, k.ref[lo], k.ref[hi])
 					return
 				}
 			}
